@@ -24,6 +24,13 @@ func (*Checker).checkThrowType
   ensures ctxKept(c, old(c.mode), old(c.selfType), old(c.Filename), old(c.compiler), old(c.constantScopes), old(c.methodScopes), old(c.phase))
   ensures envs: len(c.localEnvs) == old(len(c.localEnvs))
 
+// building a nilable type from a type: type-lattice arithmetic, the checker's context is as it
+// was (assumed, same hypothesis)
+func (*Checker).ToNilable
+  trusted
+  ensures ctxKept(c, old(c.mode), old(c.selfType), old(c.Filename), old(c.compiler), old(c.constantScopes), old(c.methodScopes), old(c.phase))
+  ensures envs: len(c.localEnvs) == old(len(c.localEnvs))
+
 func (*Checker).checkModifierForInExpressionNode
   props C12
   nosafety
